@@ -98,7 +98,7 @@ TESTS = ["xn3", "x", "cn3", "xl1", "kx", "sg", "x1", "xs", "nx0", "xpc", "cnt", 
 class _Ctr:
     def __init__(self, rot, trot=0):
         self.leaf = 0
-        self.c = rot
+        self.c = rot + trot
         self.t = rot + trot
 
     def cond(self):
@@ -160,7 +160,7 @@ def form(name, bodies, ctr):
 
 def program(outer, nest_at, inner, rot, reg_hole=0):
     """outer form; hole `nest_at` (or None) additionally contains the form `inner` between its prints"""
-    ctr = _Ctr(rot, trot=reg_hole)      # the design index also rotates the Assert / Cover / Assume tests
+    ctr = _Ctr(rot, trot=reg_hole)      # the design index also rotates the conditions and the Assert / Cover / Assume tests
     bodies = []
     for h in range(HOLES[outer]):
         body = hole(ctr, reg=(h == reg_hole % HOLES[outer]))
